@@ -245,6 +245,14 @@ class TableMachine:
         ops.append(("set_values", [[7, 8], [9, 7]], 0, 0))
         ops.append(("set_values", [[7, 8], [], [9]], 1, 1))
         ops.append(("set_cells", [[(8, 2)], [(9, 1), (7, 2)]], 0, max(H - 1, 0)))
+        # the same calls storing the given objects without copying them (clone=False)
+        ops.append(("set_cells", [[(8, 2)], [(9, 1), (7, 2)]], 0, max(H - 1, 0), "noclone"))
+        ops.append(("set_cells", [[(8, 1), (9, 1)]], 1, 0, "noclone"))
+        ops.append(("set_cell", 0, 0, 8, 2, "noclone"))
+        ops.append(("set_cell", xs[-1] if not full else W, ys[-1] if not full else max(H - 1, 0), 8, 1, "noclone"))
+        ops.append(("set_row", 0, [(8, 1), (9, 1)], 2, "noclone"))
+        ops.append(("insert_row", max(H - 1, 0), [(9, 2)], 1, "noclone"))
+        ops.append(("append_row", [(7, 1), (8, 1)], 2, "noclone"))
         ops.append(("extend_rows", [([(7, 1)], 2), ([(8, 3), (9, 2)], 1)]))
         if not mini:
             ops.append(("set_values", [[7, 8, 9, 7]], 0, H))
@@ -258,6 +266,20 @@ class TableMachine:
                     ops.append(("row_repeated", H - 1, k))
             if W > 0:
                 ops.append(("cell_repeated", 0, 0, 2))
+        # the Row API on a live row (get_row(y, clone=False)) that is stored on its own (not a repeated run)
+        # and stays within the table width: the table must keep answering from its XML
+        elem0 = st.table._Element__element
+        y0 = 0
+        for r_ in TR.table_rows(elem0):
+            k_ = TR._rep(r_, TR.REP_R)
+            if k_ == 1:
+                ops.append(("live_row", y0, "clear"))
+                ops.append(("live_row", y0, "set_values", [7, None, 8][: max(W, 1)]))
+                if not mini:
+                    ops.append(("live_row", y0, "set_value", 0, 9))
+                    ops.append(("live_row", y0, "delete_cell", 0))
+                break
+            y0 += k_
         # cache-populating reads (C02 deviations; harmless for the model)
         ops.append(("read_row", 0))
         ops.append(("read_cell", 0, 0))
@@ -269,6 +291,9 @@ class TableMachine:
 
     # ------------------------------------------------------------ pre-state info
     def pre_info(self, st, op):
+        noclone = op[-1] == "noclone"
+        if noclone:
+            op = op[:-1]
         t = st.table
         elem = t._Element__element
         rows = TR.table_rows(elem)
@@ -387,11 +412,16 @@ class TableMachine:
         self._apply_model(m, op, pre)
 
     def _apply_impl(self, t, op):
+        # a trailing "noclone": the object handed over is stored as it is (clone=False)
+        kw = {}
+        if op[-1] == "noclone":
+            op = op[:-1]
+            kw = {"clone": False}
         name = op[0]
         if name == "set_value":
             t.set_value((op[1], op[2]), op[3])
         elif name == "set_cell":
-            t.set_cell((op[1], op[2]), Cell(op[3], repeated=op[4]))
+            t.set_cell((op[1], op[2]), Cell(op[3], repeated=op[4]), **kw)
         elif name == "insert_cell":
             t.insert_cell((op[1], op[2]), Cell(op[3], repeated=op[4]))
         elif name == "delete_cell":
@@ -399,14 +429,14 @@ class TableMachine:
         elif name == "append_cell":
             t.append_cell(op[1], Cell(op[2], repeated=op[3]))
         elif name == "set_row":
-            t.set_row(op[1], None if op[2] is None else self._row(op[2], op[3]))
+            t.set_row(op[1], None if op[2] is None else self._row(op[2], op[3]), **kw)
         elif name == "insert_row":
-            t.insert_row(op[1], None if op[2] is None else self._row(op[2], op[3]))
+            t.insert_row(op[1], None if op[2] is None else self._row(op[2], op[3]), **kw)
         elif name == "append_row":
             if len(op) > 3:
                 t.append(self._row(op[1], op[2]))
             else:
-                t.append_row(None if op[1] is None else self._row(op[1], op[2]))
+                t.append_row(None if op[1] is None else self._row(op[1], op[2]), **kw)
         elif name == "delete_row":
             t.delete_row(op[1])
         elif name == "set_row_values":
@@ -431,7 +461,7 @@ class TableMachine:
         elif name == "set_values":
             t.set_values([list(r) for r in op[1]], coord=(op[2], op[3]))
         elif name == "set_cells":
-            t.set_cells([self._cells(r) for r in op[1]], coord=(op[2], op[3]))
+            t.set_cells([self._cells(r) for r in op[1]], coord=(op[2], op[3]), **kw)
         elif name == "extend_rows":
             t.extend_rows([self._row(items, k) for items, k in op[1]])
         elif name == "clear":
@@ -448,6 +478,16 @@ class TableMachine:
             t.get_row(op[1], clone=False)
         elif name == "read_cell":
             t.get_cell((op[1], op[2]), clone=False)
+        elif name == "live_row":
+            row = t.get_row(op[1], clone=False)
+            if op[2] == "clear":
+                row.clear()
+            elif op[2] == "set_values":
+                row.set_values(list(op[3]))
+            elif op[2] == "set_value":
+                row.set_value(op[3], op[4])
+            elif op[2] == "delete_cell":
+                row.delete_cell(op[3])
         elif name == "read_all":
             for r in t.traverse():
                 list(r.traverse())
@@ -462,6 +502,8 @@ class TableMachine:
             raise AssertionError(name)
 
     def _apply_model(self, m, op, pre):
+        if op[-1] == "noclone":
+            op = op[:-1]
         name = op[0]
         if name == "set_value":
             m.set_cell(op[1], op[2], op[3], 1)
@@ -514,6 +556,21 @@ class TableMachine:
             if "rowrun" in pre:
                 s, old = pre["rowrun"]
                 m.set_row_run_length(s, old, op[2])
+        elif name == "live_row":
+            r = m.rows[op[1]]
+            if op[2] == "clear":
+                del r[:]
+            elif op[2] == "set_values":
+                vals = list(op[3])
+                r[0 : len(vals)] = vals
+            elif op[2] == "set_value":
+                if op[3] < len(r):
+                    r[op[3]] = op[4]
+                else:
+                    r.extend([None] * (op[3] - len(r)) + [op[4]])
+            elif op[2] == "delete_cell":
+                if op[3] < len(r):
+                    del r[op[3]]
         elif name == "cell_repeated":
             if "rowrun" in pre and "cellrun" in pre:
                 s, old = pre["rowrun"]
@@ -593,6 +650,8 @@ class TableMachine:
         for k in ("in_wrapper", "cached"):
             if pre.get(k):
                 parts.append(k)
+        if op and op[-1] == "noclone":
+            parts.append("noclone")
         return ",".join(parts)
 
     def check(self, st, prop, op):
